@@ -20,6 +20,23 @@ import (
 // one connection of a given kind against the running stack; returns when the client side is done
 func metricsConn(e *e2eEnv, kind string, r *rng) {
 	switch kind {
+	case "badrecver-h2", "badrecver-h1":
+		// a hello whose legacy_record_version is outside 0x0300..0x0304: crypto/tls completes the handshake, the ClientHello
+		// capture rejects the record: one connection, to be counted once, as failed with an empty protocol
+		c, err := net.DialTimeout("tcp", e.addr, 3*time.Second)
+		if err != nil {
+			return
+		}
+		alpn := []string{"h2", "http/1.1"}
+		if kind == "badrecver-h1" {
+			alpn = []string{"http/1.1"}
+		}
+		tc := tls.Client(&verConn{Conn: c, ver: 0x0305}, &tls.Config{InsecureSkipVerify: true, NextProtos: alpn})
+		tc.SetDeadline(time.Now().Add(3 * time.Second))
+		if tc.Handshake() == nil {
+			io.ReadAll(tc)
+		}
+		c.Close()
 	case "reject-cert-h2", "reject-cert-h1":
 		// the client offers ALPN, the server picks a protocol while it processes the hello, then the client refuses the
 		// certificate: a failed handshake, to be counted as ok="0" with an EMPTY protocol
@@ -198,7 +215,7 @@ func init() {
 
 	register("metrics", "requests_total: batches of concurrent connections with every outcome against the real stack", func(c *ctx) {
 		kinds := []string{"h2", "h1", "noalpn", "plainhttp", "garbage", "abort-hello", "stall", "abort-after-h1", "abort-after-h2", "tls10",
-			"reject-cert-h2", "reject-cert-h1", "rst-after-h1", "rst-after-h2"}
+			"reject-cert-h2", "reject-cert-h1", "rst-after-h1", "rst-after-h2", "badrecver-h2", "badrecver-h1"}
 		for i := 0; i < c.count; i++ {
 			r := c.rng.fork()
 			n := r.rangeI(1, 24)
